@@ -95,7 +95,7 @@ package ucon
 //@ func (*BlockConsensusData).GetPublicKey props C01
 //@ nobody
 //@ pure
-//@ effectfree (*github.com/youchainhq/go-youchain/core/types.Header).Hash (github.com/youchainhq/go-youchain/common.Hash).Bytes (github.com/youchainhq/go-youchain/common.Hash).String
+//@ effectfree (*github.com/youchainhq/go-youchain/core/types.Header).Hash (github.com/youchainhq/go-youchain/common.Hash).String
 
 //@ func (*Server).verifyConsensusFieldMain props C01
 //@ opt abstract-slices
